@@ -2,7 +2,9 @@
 //!
 //! usage: vp <check> [--tier quick|thorough] [--seed N] [--shard i/n] [--out file] [--replay file]
 
+mod c04;
 mod c16;
+mod c18;
 mod drive;
 mod node;
 mod refcodec;
@@ -67,7 +69,9 @@ fn main() {
                 std::process::exit(2);
             }
         },
+        "c04" => c04::run(&mut rep, &tier, seed, shard, replay.as_deref()),
         "c16" => c16::run(&mut rep, &tier, seed, shard),
+        "c18" => c18::run(&mut rep, &tier, seed, shard, replay.as_deref()),
         other => {
             eprintln!("unknown check {other}");
             std::process::exit(2);
